@@ -35,7 +35,31 @@ Case genRc(bool open) {
     if (G::chance(1) && G::chance(open ? 60 : 25)) { nv = (int)G::range(60, open ? 400 : 200); ST.count("large_path_60_to_400_vertices"); }   // size-dependent behaviour (container growth)
     int64_t ext = std::min<int64_t>((int64_t(1) << 40) - std::max(std::abs(r.l), std::abs(r.r)) - 1, std::max<int64_t>(W, H) + 5);
     ext = std::max<int64_t>(ext, 1);
-    if (kind == 0) {            // entirely inside
+    if (!open && G::chance(6) && W >= 3 && H >= 3) {
+      // a SIMPLE polygon that encloses the rectangle without touching it and folds like an accordion around one corner:
+      // it alternates k times between the strip beside one side and the region beyond the adjacent side (the orientation
+      // of the rectangle RectClip returns is decided from exactly these zone-to-zone steps)
+      bool left = G::coin(), top = G::coin();
+      int64_t cx = left ? r.l : r.r, cy = top ? r.t : r.b, ox = left ? -1 : 1, oy = top ? -1 : 1;
+      int64_t oppx = left ? r.r : r.l, oppy = top ? r.b : r.t;
+      int teeth = (int)G::range(1, 7);
+      int64_t e = 1 + G::range(0, std::min<int64_t>(std::min(W, H) - 2, 20));
+      int64_t room = std::max<int64_t>(ext, 1);
+      std::vector<int64_t> dk;
+      int64_t d = e + 1 + G::range(0, 5);
+      for (int k = 0; k < teeth; ++k) { dk.push_back(d); d += 1 + G::range(0, 6); }
+      int64_t D = d + G::range(1, 10);
+      if (D <= room) {
+        for (int k = 0; k < teeth; ++k) { p.emplace_back(cx + ox * dk[k], cy - oy * e); p.emplace_back(cx - ox * e, cy + oy * dk[k]); }
+        p.emplace_back(oppx - ox * D, cy + oy * D);
+        p.emplace_back(oppx - ox * D, oppy - oy * D);
+        p.emplace_back(cx + ox * dk[0], oppy - oy * D);
+        if (G::coin()) std::reverse(p.begin(), p.end());
+        ST.count("accordion_enclosure_teeth_" + std::to_string(teeth));
+      }
+    }
+    if (!p.empty()) {
+    } else if (kind == 0) {            // entirely inside
       for (int v = 0; v < nv; ++v) p.emplace_back(G::range(r.l, r.r), G::range(r.t, r.b));
     } else if (kind == 1 && !open) {     // encloses the rectangle / winds around it several times
       int turns = (int)G::range(1, 3);
